@@ -23,8 +23,8 @@ SS == INSTANCE SharedState WITH DefaultCopied <- TRUE, RouteCopied <- TRUE, Sett
 FlatSeq == <<"find_mux", "find_legacy", "find_mux_servers", "find_legacy_servers", "vreq_params", "vreq_params_delete", "vreq_body_pattern",
              "vreq_body_unique", "vreq_body_defaults", "vresp", "visitjson", "gen_newtype", "gen_sametype", "gen_nested", "gen_customizer",
              "vreq_body_pattern_customregex", "vreq_secure_body", "vreq_multipart_addprops", "vreq_json_addprops",
-             "vreq_form_sharedopts", "vreq_json_defaults_sharedopts", "load_cached">>
-EntrySeq == <<"visit", "visit_typed", "visit_opts", "param_query", "param_header", "param_multi", "req_body", "resp_body", "resp_header", "middleware">>
+             "vreq_form_sharedopts", "vreq_json_defaults_sharedopts", "load_cached", "doc_marshal">>
+EntrySeq == <<"visit", "visit_typed", "visit_opts", "param_query", "param_header", "param_multi", "req_body", "resp_body", "resp_header", "middleware", "param_query_legacy", "req_body_legacy">>
 FeatureSeq == <<"anyof", "oneof", "allof", "pattern", "format_date", "format_custom", "format_int32", "number", "enum", "minmax",
                 "unique", "not", "object", "discriminator">>
 ASSUME {FlatSeq[i] : i \in DOMAIN FlatSeq} \subseteq SS!FlatOps        \* (vreq_body_pattern_first / _again are the two phases of vreq_body_pattern)
